@@ -32,8 +32,8 @@ PROPS = {
     },
     'C12': {
         'lean': 'C12',
-        'corr': [_f('comp_sema', 'corr')],
-        'oracles': [_f('comp_sema', 'oracle')],
+        'corr': [_f('comp_sema', 'corr'), _f('comp_sema', 'blocking_corr')],
+        'oracles': [_f('comp_sema', 'oracle'), _f('comp_sema', 'blocking_oracle')],
         'modelled': ['utils.SlidingWindowSemaphore', 'utils.TaskSemaphore', 'utils.CountCallbackInvoker',
                      'threading.Condition wait/notify (blocking model: FIFO notify of one waiter)'],
     },
